@@ -214,7 +214,7 @@ class Detect(Harness):
     bounds = ('1 sample: BPSK (own detector, and the generic detector on its '
               'table), QPSK, PSK M in {2,4,8,16} x offsets {0, pi/M, 0.3} '
               '(+ constructed then setPhaseOffset(0.3)), PSK 32 (pi/M), QAM '
-              'M in {4,16}; thorough: PSK 32 (3 offsets), PSK 64, PSK 128 (plane split '
+              'M in {4,16}; thorough: PSK 32 (3 offsets), PSK 64 (plane split '
               'into the four closed quadrants), QAM 64.  2 samples '
               '(shapes (2,), (2,1), (1,2)): BPSK, QPSK, PSK 4, QAM 4, PSK 8; '
               'thorough: QAM 16.  Samples: all of C (two unbounded reals '
@@ -222,8 +222,10 @@ class Detect(Harness):
     stubs = (_ABS_STUB, 'ndarray < 0 on object arrays: numpy calls the '
              'proxies\' lexicographic complex "<" per element')
     assumptions = tuple(ASSUMPTIONS)
-    outside = ('M beyond the enumerated orders (PSK > 128, QAM > 64: QAM 256 '
-               'needs ~35 CPU-minutes) for the '
+    outside = ('M beyond the enumerated orders (PSK > 64, QAM > 64: PSK 128 '
+               'offset 0 was measured once at ~23 CPU-minutes, all four '
+               'quadrants discharged; one quadrant of QAM 256 at 8.5 '
+               'CPU-minutes, discharged; not part of the tiers) for the '
                'emitted tables; more than 2 samples per call (the detector is '
                'column-wise: argmin(axis=0))',
                'symbolic phase offset through the constructor (cos/sin with '
@@ -262,10 +264,9 @@ class Detect(Harness):
         if tier != 'quick':
             out += [dict(kind='PSK', M=32, off=off, shape=[1])
                     for off in (0, 0.3)]
-            out += [dict(kind='PSK', M=64, off='pi/M', shape=[1]),
-                    dict(kind='QAM', M=64, shape=[1]),
+            out += [dict(kind='QAM', M=64, shape=[1]),
                     dict(kind='QAM', M=16, shape=[2])]
-            out += [dict(kind='PSK', M=128, off='pi/M', shape=[1],
+            out += [dict(kind='PSK', M=64, off='pi/M', shape=[1],
                          quad=[sx, sy]) for sx in (1, -1) for sy in (1, -1)]
         # longest work units first (cost ~ paths x M)
         out.sort(key=lambda c: -(c['M']**2) * (
@@ -1334,7 +1335,7 @@ MANIFEST = dict(
     text='Bounded symbolic model checking of the real Modulator/BPSK/PSK/QAM '
     'code: demodulate runs on symbolic complex samples (1-2 samples, several '
     'array shapes) against the tables the real constructors emit (BPSK, '
-    'QPSK, PSK 2..32 quick / ..128 thorough with offsets {0, pi/M, 0.3} and '
+    'QPSK, PSK 2..32 quick / ..64 thorough with offsets {0, pi/M, 0.3} and '
     'after setPhaseOffset, QAM 4,16 / 64), against fully symbolic tables of '
     '<= 5/8 points and against the PSK table (M <= 16/32) rotated by a '
     'symbolic unit phasor (any phase offset); every argmin path is explored and z3 proves the '
